@@ -279,7 +279,7 @@ func genTarget(t *verifrt.Tape, o *genOpts, phase int) TargetSpec {
 			}
 		case 1:
 			if o.RegexKeys {
-				ts.Key = pick(t, []string{"^a", "^[ab]$", ".", "(?i)^a$", "x"})
+				ts.Key = pick(t, []string{"^a", "^[ab]$", ".", "(?i)^a$", "x", "^A", "^X-", "[A-Z]"})
 				ts.Regex = true
 			}
 		}
